@@ -8,9 +8,18 @@ Atoms: int str float bool Any None Lit Enum NI (NewType of int) NN (NewType of n
 from __future__ import annotations
 
 NODE_ATOMS = {"N1", "N2", "NN", "FR"}
+# NewTypes over PARAMETRISED types: transparent aliases of the term they wrap (NT = NewType("NT", tuple[N1, ...]),
+# NO = NewType("NO", Optional[N1]))
+ALIASES = {"NT": ("vtuple", ("atom", "N1")), "NO": ("opt", ("atom", "N1"))}
+
+
+def expand(t):
+    if t[0] == "atom":
+        return ALIASES.get(t[1], t)
+    return (t[0],) + tuple(expand(a) if isinstance(a, tuple) else a for a in t[1:])
 MUT_ATOMS = {"NL"}
 ATOM_SRC = {"int": "int", "str": "str", "float": "float", "bool": "bool", "Any": "Any", "None": "None", "Lit": "Literal[1, 'a']",
-            "Enum": "E", "NI": "NI", "NN": "NN", "NL": "NL", "N1": "N1", "N2": "N2"}
+            "Enum": "E", "NI": "NI", "NN": "NN", "NL": "NL", "N1": "N1", "N2": "N2", "NT": "NT", "NO": "NO"}
 UNARY = {"opt": "Optional[{0}]", "vtuple": "tuple[{0}, ...]", "fset": "frozenset[{0}]", "seq": "Sequence[{0}]", "list": "list[{0}]", "set": "set[{0}]"}
 BINARY = {"union": "Union[{0}, {1}]", "bar": "{0} | {1}", "ftuple": "tuple[{0}, {1}]", "map": "Mapping[{0}, {1}]", "dict": "dict[{0}, {1}]"}
 
@@ -35,6 +44,8 @@ class N2(N1):
 NI = NewType("NI", int)
 NN = NewType("NN", N1)
 NL = NewType("NL", list)
+NT = NewType("NT", tuple[N1, ...])
+NO = NewType("NO", Optional[N1])
 '''
 LATER = '''
 @dataclass(frozen=True)
@@ -116,6 +127,7 @@ def _node_union(t, allow_none: bool) -> bool:
 
 def classify(t) -> str:
     """'child' | 'property' | 'rejected' - written from the statement of C11."""
+    t = expand(t)
     ats, cons = atoms_of(t), constructors_of(t)
     has_node = bool(ats & NODE_ATOMS)
     has_mut = bool(ats & MUT_ATOMS) or bool(cons & {"list", "dict", "set"})
